@@ -11,6 +11,7 @@ import (
 	"bufio"
 	"fmt"
 	"math/big"
+	"regexp"
 	"sort"
 	"strings"
 )
@@ -232,6 +233,28 @@ func c01SrcAt(d *Defs, doc JV, path string) string {
 				return r.Kind.String()
 			}
 			return r.Kind.String() + "(" + leaf(r.Elem, depth+1) + ")"
+		case SOneOfScalars:
+			// a union of constants / booleans / (references to) enums: the alternatives are spelled out, so
+			// that a finding about one flavour (`false | true`) cannot hide a defect of another (`0 | #Level`)
+			if d.srcEnumLikeUnion(r) {
+				parts := []string{}
+				for _, a := range r.Alts {
+					k := a.Kind.String()
+					switch a.Kind {
+					case SConst:
+						k = map[byte]string{'s': "const.string", 'n': "const.int"}[a.Const.K]
+						if k == "" {
+							k = "const.bool"
+						}
+					case SRef:
+						if t := d.lookup(a.Ref); t != nil {
+							k = "ref." + t.Kind.String()
+						}
+					}
+					parts = append(parts, k)
+				}
+				return "oneOfScalars<" + strings.Join(parts, "|") + ">"
+			}
 		}
 		return r.Kind.String()
 	}
@@ -239,6 +262,55 @@ func c01SrcAt(d *Defs, doc JV, path string) string {
 		desc = append(desc, leaf(cur, 0))
 	}
 	return strings.Join(desc, "/")
+}
+
+var c01GoFieldErr = regexp.MustCompile(`cannot unmarshal (\w+) into Go struct field (\S+) of type`)
+var c01GoValueErr = regexp.MustCompile(`cannot unmarshal (\w+) into Go value of type`)
+
+// c01AtOfMember: the construct (c01SrcAt) of the first member called key (any member when key is empty) whose
+// value has the JSON type named by encoding/json's error (array, string, number, bool, object) and whose
+// construct ends with suffix.
+func c01AtOfMember(d *Defs, doc JV, key, jsonType, suffix string) string {
+	kindOK := func(v JV) bool {
+		switch jsonType {
+		case "array":
+			return v.K == 'a'
+		case "string":
+			return v.K == 's'
+		case "number":
+			return v.K == 'n'
+		case "bool":
+			return v.K == 't' || v.K == 'f'
+		case "object":
+			return v.K == 'o'
+		}
+		return true
+	}
+	found := ""
+	var walk func(v JV, path string)
+	walk = func(v JV, path string) {
+		if found != "" {
+			return
+		}
+		switch v.K {
+		case 'a':
+			for i, e := range v.A {
+				walk(e, fmt.Sprintf("%s[%d]", path, i))
+			}
+		case 'o':
+			for _, e := range v.O {
+				if (key == "" || e.K == key) && kindOK(e.V) && found == "" {
+					if at := c01SrcAt(d, doc, path+"."+e.K); strings.HasSuffix(at, suffix) {
+						found = at
+						return
+					}
+				}
+				walk(e.V, path+"."+e.K)
+			}
+		}
+	}
+	walk(doc, "$")
+	return found
 }
 
 func c01Class(orig, got JV) string {
@@ -318,6 +390,21 @@ func init() {
 				switch {
 				case !strings.HasPrefix(dec, "ok "):
 					verdict = "FAIL dec-error " + info + " " + labOneLine(dec)
+					if m := c01GoFieldErr.FindStringSubmatch(dec); m != nil {
+						// which construct of the term the refused member is (known findings are told apart by it)
+						if at := c01AtOfMember(c.Defs, d, m[2][strings.LastIndex(m[2], ".")+1:], m[1], ""); at != "" {
+							verdict += " at=" + at
+						}
+					} else if m := c01GoValueErr.FindStringSubmatch(dec); m != nil {
+						// raised inside the custom unmarshaller of a union: the first union-typed member holding such a value
+						at := c01AtOfMember(c.Defs, d, "", m[1], "+default)/oneOfScalars") // a member with a default first
+						if at == "" {
+							at = c01AtOfMember(c.Defs, d, "", m[1], "/oneOfScalars")
+						}
+						if at != "" {
+							verdict += " at=" + at
+						}
+					}
 				default:
 					impl = dec
 					got, perr := parseJV([]byte(strings.TrimPrefix(dec, "ok ")))
